@@ -59,6 +59,10 @@ func (w *lcWorld) url(kind, name string) string {
 	if kind == "mem" {
 		return rosmar.InMemoryURL
 	}
+	if kind == "mem2" {
+		// another spelling of "in memory": a path plus mode=memory
+		return "rosmar://" + filepath.Join(w.root, "m2") + "?mode=memory"
+	}
 	return "rosmar://" + filepath.Join(w.root, kind, name)
 }
 
@@ -79,7 +83,7 @@ var lcModes = []rosmar.OpenMode{rosmar.CreateOrOpen, rosmar.CreateNew, rosmar.Re
 // doOpen: OpenBucket(url(kind), name, mode).
 func (w *lcWorld) doOpen(name, kind string, mode int) {
 	url := w.url(kind, name)
-	if kind != "mem" {
+	if kind != "mem" && kind != "mem2" {
 		_ = os.MkdirAll(filepath.Join(w.root, kind), 0700)
 	}
 	var b *rosmar.Bucket
@@ -102,7 +106,7 @@ func (w *lcWorld) doOpen(name, kind string, mode int) {
 		default:
 			wantOK = true
 		}
-	case kind == "mem":
+	case kind == "mem" || kind == "mem2":
 		wantOK, why = mode != 2, "ReOpenExisting on a missing in-memory bucket"
 	default:
 		switch mode {
@@ -123,8 +127,8 @@ func (w *lcWorld) doOpen(name, kind string, mode int) {
 	}
 	if st == nil || !st.loaded {
 		w.incs++
-		st = &lcStore{url: url, urlKind: kind, disk: kind != "mem", inc: w.incs, loaded: true, contents: map[string]string{}}
-		if kind != "mem" {
+		st = &lcStore{url: url, urlKind: kind, disk: kind != "mem" && kind != "mem2", inc: w.incs, loaded: true, contents: map[string]string{}}
+		if kind != "mem" && kind != "mem2" {
 			if persisted, ok := w.onDisk[url]; ok {
 				for k, v := range persisted {
 					st.contents[k] = v
@@ -329,7 +333,7 @@ func (w *lcWorld) cleanup() {
 var lcNames = []string{"x", "y"}
 
 // ("D1" is another directory than "d1": URLs are compared as they are)
-var lcKinds = []string{"mem", "d1", "d2", "D1", "d 3"} // ("d 3": a path that needs escaping in a URL)
+var lcKinds = []string{"mem", "d1", "d2", "D1", "d 3", "mem2"} // ("d 3": a path that needs escaping in a URL)
 
 func (w *lcWorld) exec(op Op) {
 	w.step++
